@@ -18,12 +18,33 @@ SPEC = "specs/TxAssembly"
 ACTIONS = ["AssembleDepositSweep", "AssembleRedemption", "AssembleMovingFunds", "AssembleMovedFundsSweep"]
 
 
+def par(jobs):
+    import threading
+    res, errs = [None] * len(jobs), []
+
+    def w(i, f):
+        try:
+            res[i] = f()
+        except BaseException as e:      # noqa
+            errs.append(e)
+    ts = [threading.Thread(target=w, args=(i, f)) for i, f in enumerate(jobs)]
+    for t in ts:
+        t.start()
+    for t in ts:
+        t.join()
+    if errs:
+        raise errs[0]
+    return res
+
+
 def run(ctx):
-    r = ctx.tlc(SPEC, "MC_TxAssembly", cfg=ctx.pick("MC_TxAssembly", "MC_TxAssembly_thorough"), coverage=True,
-                label="MC_TxAssembly", timeout=1500)
+    r, g = par([
+        lambda: ctx.tlc(SPEC, "MC_TxAssembly", cfg=ctx.pick("MC_TxAssembly", "MC_TxAssembly_thorough"), coverage=True,
+                        label="MC_TxAssembly", timeout=1500, workers=6),
+        lambda: ctx.tlc(SPEC, "Gen_TxAssembly", cfg=ctx.pick("Gen_TxAssembly", "Gen_TxAssembly_thorough"), workers=1,
+                        label="Gen_TxAssembly", dump_trace=False, timeout=1500),
+    ])
     ctx.require_coverage(r, ACTIONS, "MC_TxAssembly")
-    g = ctx.tlc(SPEC, "Gen_TxAssembly", cfg=ctx.pick("Gen_TxAssembly", "Gen_TxAssembly_thorough"), workers=1,
-                label="Gen_TxAssembly", dump_trace=False, timeout=1500)
     cases = ctx.read_emitted(g, "cases.ndjson")
     want = ctx.pick(16863, 219525)
     if len(cases) != want:
